@@ -81,6 +81,8 @@ func genC05(t *rapid.T) c5Case {
 		g.RotRefs = rapid.SampledFrom([][]string{
 			{"example.com/x/codec.T", "example.com/y/codec.T"}, {"github.com/foo/bar.T", "github.com/other/bar.T"}, {"example.com/a/util.X", "example.com/b/util.X"},
 			{"example.com/y/codec.T", "example.com/x/codec.T"},
+			// import paths whose first element has no dot (a module named without a host), competing for one name
+			{"corp/x/codec.T", "team/y/codec.T"}, {"team/y/codec.T", "corp/x/codec.T"}, {"kit/log.T", "corp/platform/log.T"},
 		}).Draw(t, "rotpair")
 		g.Alias = rapid.Bool().Draw(t, "alias")
 		for pi := range c.Mod.Pkgs {
